@@ -596,6 +596,8 @@ impl<'a> Exec<'a> {
             if tor != mt || peers != mp {
                 self.violations.push(Violation::new("C20", "report-totals", "report-totals", format!("after clean at {} s: reported {:?} torrents/peers {}/{} but {} / {} are stored", now, fam, tor, peers, mt, mp)));
                 self.violations.push(Violation::new("C01", "torrent-dropped-when-empty", "report-totals", format!("after clean at {} s: {:?} torrents/peers {}/{} vs reference {}/{}", now, fam, tor, peers, mt, mp)));
+                // (the pass removed too much or too little: C10's concern as much as the reports')
+                self.violations.push(Violation::new("C10", "state-after-clean", "state-after-clean", format!("after clean at {} s: {:?} holds torrents/peers {}/{} but exactly {}/{} have a deadline in the future", now, fam, tor, peers, mt, mp)));
                 return;
             }
         }
